@@ -301,3 +301,60 @@ func keygenRefuses(g proto.Group, kg keygenKind, p *policy.Policy, ids []uint64,
 	}
 	return false
 }
+
+// TestDisorderedHierarchy concentrates on hierarchical policies whose identifiers do NOT increase
+// from level to level (ordinal IDs permuted across levels, so every disorder pattern of a small
+// structure is drawn: interleaved levels, a low level below a high one, one stray member). The
+// property is two-sided: the library may REFUSE such a structure when the key generation is set
+// up (nothing was generated, the case is trivial and cheap), but whenever it accepts one, the run
+// must satisfy the full C03 oracle - one consistent key, qualified sets reconstruct the discrete
+// logarithm of the public key and unqualified sets do not.
+func TestDisorderedHierarchy(t *testing.T) {
+	const test = "DisorderedHierarchy"
+	groups := proto.GroupNames()
+	vlib.Check(t, 480, func(t *rapid.T) {
+		p := policy.Draw(t, policy.Opts{MaxN: 5, Families: []string{policy.Hier}})
+		g := proto.GroupByName(rapid.SampledFrom(groups).Draw(t, "group"))
+		perm := rapid.Permutation(policy.DrawIDs(t, p, policy.Ordinal)).Draw(t, "idperm")
+		ordered, monotoneMax := true, true
+		var prevMax uint64
+		for _, l := range p.Levels {
+			var mx uint64
+			for _, h := range l.Members {
+				if perm[h] <= prevMax {
+					ordered = false
+				}
+				if perm[h] > mx {
+					mx = perm[h]
+				}
+			}
+			if len(l.Members) > 0 && mx <= prevMax {
+				monotoneMax = false
+			}
+			if mx > prevMax {
+				prevMax = mx
+			}
+		}
+		if ordered {
+			vlib.Case(test, vlib.Desc("ordered", p.String()), false, "order=kept")
+			return
+		}
+		kg := rapid.SampledFrom(keygens).Draw(t, "keygen")
+		ctxSeed := rapid.Uint64().Draw(t, "ctxSeed")
+		cls := fmt.Sprintf("level-maxima-increasing=%v", monotoneMax)
+		if keygenRefuses(g, kg, p, perm, ctxSeed) {
+			vlib.Case(test, vlib.Desc("refused", p.String(), fmt.Sprint(perm), kg.name), true, "outcome=refused", cls, "keygen="+kg.name)
+			vlib.Sample("disordered-refused", map[string]any{"policy": p.String(), "ids": perm, "keygen": kg.name, "group": g.Name()})
+			return
+		}
+		seeds := map[proto.ID]uint64{}
+		for i, id := range proto.ToIDs(perm) {
+			seeds[id] = rapid.Uint64().Draw(t, fmt.Sprintf("seed%d", i))
+		}
+		what := fmt.Sprintf("%s/%s/%s/disordered ids=%v", kg.name, g.Name(), p, perm)
+		shards := runKeygen(t, g, kg, p, perm, seeds, ctxSeed)
+		checkKeyMaterial(t, g, p, perm, shards, what)
+		vlib.Case(test, vlib.Desc("accepted", p.String(), fmt.Sprint(perm), kg.name), true, "outcome=accepted-and-correct", cls, "keygen="+kg.name)
+		vlib.Sample("disordered-accepted", map[string]any{"policy": p.String(), "ids": perm, "keygen": kg.name, "group": g.Name()})
+	})
+}
